@@ -121,6 +121,12 @@ def abort_primitive(source=0) -> A_ABORT:
     return p
 
 
+def pabort_primitive(reason=2) -> A_P_ABORT:
+    p = A_P_ABORT()
+    p.provider_reason = reason
+    return p
+
+
 def abort_pdu(source=0, reason=0) -> A_ABORT_RQ:
     pdu = A_ABORT_RQ()
     pdu.source = source
